@@ -638,9 +638,9 @@ def model_types(ck, targ, probes):
         if o == "error":
             p.model = None
             continue
-        m = re.fullmatch(r"(.*) q=(\d) lv=([01]) w=(\S+) nc=([01]) ok=([01])", o)
+        m = re.fullmatch(r"(.*) q=(\d) lv=([01]) w=(\S+) nc=([01]) dk=([01]) ok=([01])", o)
         p.model = {"ty": ty_of(m.group(1)), "q": int(m.group(2)), "lv": m.group(3) == "1", "w": m.group(4),
-                   "ok": m.group(6) == "1", "txt": m.group(1)}
+                   "dk": m.group(6) == "1", "ok": m.group(7) == "1", "txt": m.group(1)}
 
 
 def twin_type(a):
@@ -663,24 +663,27 @@ def kb_source(probes, decls, idx):
         a = p.model["ty"]
         e = p.c
         if a[0] in ("void",):
-            out.append("int t%d = __builtin_types_compatible_p(typeof(%s), void);" % (i, e))
+            out.append("int T_%d = __builtin_types_compatible_p(typeof(%s), void);" % (i, e))
             linemap[len(out)] = i
             continue
-        out.append("int k%d = _Generic((%s), %s, default: 99);" % (i, e, GENERIC_LIST))
+        out.append("int K_%d = _Generic((%s), %s, default: 99);" % (i, e, GENERIC_LIST))
         linemap[len(out)] = i
-        if sizeof(a) is not None and not p.model["w"].isdigit() and a[0] != "f":
-            out.append("unsigned long s%d = sizeof(%s);" % (i, e))
+        if sizeof(a) is not None and not p.model["w"].isdigit() and a[0] != "f" and not p.model["dk"]:
+            out.append("unsigned long Z_%d = sizeof(%s);" % (i, e))
             linemap[len(out)] = i
-        out.append("int t%d = __builtin_types_compatible_p(typeof(%s), %s);" % (i, e, cdecl(a)))
+        if p.model["dk"]:   # typeof() looks through the decay; _Generic sees the pointer
+            out.append("int T_%d = _Generic((%s), %s: 1, default: 0);" % (i, e, cdecl(a)))
+        else:
+            out.append("int T_%d = __builtin_types_compatible_p(typeof(%s), %s);" % (i, e, cdecl(a)))
         linemap[len(out)] = i
         tw, _ = twin_type(a)
         if tw:
-            out.append("int d%d = __builtin_types_compatible_p(typeof(%s), %s);" % (i, e, cdecl(tw)))
+            out.append("int D_%d = __builtin_types_compatible_p(typeof(%s), %s);" % (i, e, cdecl(tw)))
             linemap[len(out)] = i
     return "\n".join(out) + "\n", linemap
 
 
-DATA_RE = re.compile(r"data \$([kstd])(\d+) = align \d+ \{ [wlbh] (-?\d+)")
+DATA_RE = re.compile(r"data \$([KZTD])_(\d+) = align \d+ \{ [wlbh] (-?\d+)")
 
 
 def run_cproc(cc, targ, path):
@@ -740,7 +743,7 @@ def run_kb(ck):
                           "what": "cproc rejects an expression the model types and the Spec allows"})
         obs = {}
         for m in DATA_RE.finditer(out):
-            obs.setdefault(int(m.group(2)), {})[m.group(1)] = int(m.group(3))
+            obs.setdefault(int(m.group(2)), {})[m.group(1).lower().replace("z", "s")] = int(m.group(3))
         bad_n = 0
         for i in idx:
             p = probes[i]
